@@ -25,6 +25,10 @@ def run(tier):
     for rel, q, c, tag in LG.ITEMS:
         if tag == 'C18':
             reps.append(deductive.verify_function(rel, q, c, hooks=LG.OneCellHooks(), module_env=LG.ENV, prefix='%s::%s[one-cell instance]' % (rel, q)))
+    from ..contracts import oraclewire as OW
+    for rel, q, c in OW.ITEMS:
+        reps.append(deductive.verify_function(rel, q, c, hooks=OW.hooks_for(c), prefix='%s::%s[oracle wiring]' % (rel, q)))
+    reps.append(OW.frame_report())
     from ..contracts import feas as FE
     for rel, q, c in FE.ITEMS:
         reps.append(deductive.verify_function(rel, q, c, hooks=FE.hooks_for(c)))
